@@ -46,6 +46,10 @@ class FnTarget(_AbstractDistribution):
             self.fault(kind, len(self.glog))     # global index of this call in the shared log
 
     def misfit_value(self, m):
+        if getattr(self, "box", None) is not None:      # a bounded target: zero probability outside its box
+            a = numpy.asarray(m, dtype=float).flatten()
+            if any(a[i] < self.box[0][i] or a[i] > self.box[1][i] for i in range(self.dimensions)):
+                return INF
         if self.script is not None:
             key = _h(0, "key", m)
             if key not in self._scripted and len(self._scripted) < len(self.script):
